@@ -32,11 +32,11 @@ class Ledger:
                 if r['kind'].startswith('adt:' + PSS):
                     for name, o in zip(r.get('fields', []), r['ops']):
                         if name == 'total_acb' and is_place(o):
-                            self.acb_locals |= self._user_roots(o)
+                            self.acb_locals |= self._user_roots(o) or self._field_root(o)
                 if r['kind'].startswith('adt:' + TXDELTA):
                     for name, o in zip(r.get('fields', []), r['ops']):
                         if name == 'capital_gain' and is_place(o):
-                            self.gain_locals |= self._user_roots(o)
+                            self.gain_locals |= self._user_roots(o) or self._field_root(o)
         if not self.acb_locals or not self.gain_locals:
             self.why = 'could not identify the locals feeding PortfolioSecurityStatus.total_acb / TxDelta.capital_gain'
             return
@@ -74,6 +74,25 @@ class Ledger:
             cur = d[3]['r']['ops'][0]['pl']['l']
         return set()
 
+    def _field_root(self, o):
+        """the working values kept as fields of a private struct of the module (`step.acb_total`): the token ('field', struct, name)"""
+        f = self.fn
+        cur = o
+        for _ in range(8):
+            if not is_place(cur):
+                return set()
+            fs = [(of, fl) for (of, fl) in mir.place_fields(cur['pl']) if of and not of.startswith('std::') and of not in (PSS, TXDELTA)]
+            if fs:
+                of, fl = fs[-1]
+                if of.startswith('portfolio::bookkeeping::'):
+                    return {('field', of, fl)}
+                return set()
+            d = f.single_def(cur['pl']['l'])
+            if d is None or d[2] != 'stmt' or d[3]['r']['rv'] != 'use':
+                return set()
+            cur = d[3]['r']['ops'][0]
+        return set()
+
     def is_copy_of_previous_acb(self, node, kind):
         """`new_acb = pre_status.total_acb` — restating the previous cost base is not a change"""
         if kind != 'stmt' or node['r']['rv'] != 'use' or not is_place(node['r']['ops'][0]):
@@ -88,6 +107,18 @@ class Ledger:
         out = []
         f = self.fn
         for l in locals_:
+            if isinstance(l, tuple):
+                # stores into the field, through whatever pointer (`(*self).acb_total = ..` in a spliced method)
+                for bb, b in f.blocks.items():
+                    if region is not None and bb not in region:
+                        continue
+                    for st in b['stmts']:
+                        if mir.place_fields(st['dst'])[-1:] == [(l[1], l[2])]:
+                            out.append((bb, st, 'stmt'))
+                    t = b['term']
+                    if t and t['t'] == 'call' and t.get('dst') and mir.place_fields(t['dst'])[-1:] == [(l[1], l[2])]:
+                        out.append((bb, t, 'call'))
+                continue
             for (bb, idx, kind, node) in f.defs.get(l, []):
                 if region is not None and bb not in region:
                     continue
